@@ -15,8 +15,10 @@ WITNESSES = ['C11ArcGetMutNeedsMut']
 
 def run(ctx):
     from . import guardvocab
-    guardvocab.G0(ctx, effects={'ref-dec', 'ref-inc'})
-    guardvocab.G1(ctx, effects={'ref-dec', 'ref-inc'})
+    guardvocab.G0(ctx, effects={'ref-dec', 'ref-inc', 'release', 'acquire', 'join'})
+    guardvocab.G1(ctx, effects={'ref-dec', 'ref-inc', 'release', 'acquire', 'join'})
+    guardvocab.G2(ctx, scopes=('rt::arc::', 'sync::arc::'))
+    guardvocab.G3(ctx, scopes=('rt::arc::', 'sync::arc::'))
     g_dpor.T1(ctx, mods=["rt::arc"])
     g_dpor.T2(ctx, mods=["rt::arc"])
     g_dpor.T3(ctx, mods=["rt::arc"])
